@@ -1,6 +1,7 @@
 // C15 (composite level): record Print/JSON/XML/YAML/stream of every quantity type in every unit, together
 // with the number strings and abbreviation they must consist of.  The python checker decides offline
 // (component order, abbreviation, stream == print, JSON validity and field names).
+#include <iomanip>
 #include <sstream>
 
 #include "allq.hpp"
@@ -53,6 +54,26 @@ static std::string streamed(const Q& q) {
   return os.str();
 }
 
+// "streaming equals printing" in every stream state: with a field width, fill and adjustment in effect the object is
+// inserted as one string, exactly like its Print() text
+template <typename Q>
+static void stream_with_width(Reporter& R, const std::string& key, const Q& q) {
+  for (int k = 0; k < 2; ++k) {
+    std::ostringstream a, b;
+    a << std::setfill(k ? '*' : ' ') << (k ? std::left : std::right) << std::setw(220);
+    b << std::setfill(k ? '*' : ' ') << (k ? std::left : std::right) << std::setw(220);
+    a << q << "|" << 7;
+    b << q.Print() << "|" << 7;
+    R.eval();
+    if (a.str() != b.str()) {
+      R.violation(key + "|stream-differs-from-print-under-field-width",
+                  J().s("adjustment", k ? "left" : "right").sb("streamed", a.str()).sb("print_streamed", b.str()).str());
+      return;
+    }
+  }
+  R.count("stream_with_field_width_probes");
+}
+
 template <template <typename> class QT, typename T>
 static void forms(Reporter& R, const Args& A, const char* name, uint64_t qindex) {
   using Q = QT<T>;
@@ -76,6 +97,7 @@ static void forms(Reporter& R, const Args& A, const char* name, uint64_t qindex)
       emit(R, name, tn, N, dim, "XML", "", q.XML(), nums, abbr0);
       emit(R, name, tn, N, dim, "YAML", "", q.YAML(), nums, abbr0);
       emit(R, name, tn, N, dim, "stream", "", streamed(q), nums, abbr0);
+      stream_with_width(R, key, q);
       R.nontrivial(hash_str(key));
       if constexpr (dim) {
         using U = unit_t<Q>;
@@ -114,6 +136,7 @@ static void raw_shape(Reporter& R, const Args& A, const char* name) {
     emit(R, name, Num<T>::name, N, false, "XML", "", v.XML(), nums, "");
     emit(R, name, Num<T>::name, N, false, "YAML", "", v.YAML(), nums, "");
     emit(R, name, Num<T>::name, N, false, "stream", "", streamed(v), nums, "");
+    stream_with_width(R, std::string("C15|forms|") + name + "|" + Num<T>::name, v);
     R.nontrivial(hash_str(std::string(name) + Num<T>::name));
   }
 }
